@@ -21,6 +21,34 @@ type Item struct {
 	Model Model
 	Big   map[string]*big.Int
 	NoMod bool // model not available (after an unknown answer)
+	Dom   map[string]*bitset256 // exact value sets of byte/bool symbols constrained only by unary conditions
+	Mixed map[string]bool       // symbols that occur in a multi-symbol constraint of the path condition
+}
+
+type bitset256 [4]uint64
+
+func (b *bitset256) has(v uint64) bool { return b[v>>6]&(1<<(v&63)) != 0 }
+func (b *bitset256) set(v uint64)      { b[v>>6] |= 1 << (v & 63) }
+func (b *bitset256) empty() bool       { return b[0]|b[1]|b[2]|b[3] == 0 }
+func (b *bitset256) first() uint64 {
+	for v := uint64(0); v < 256; v++ {
+		if b.has(v) {
+			return v
+		}
+	}
+	return 0
+}
+
+func fullDomain(s Sort) *bitset256 {
+	var b bitset256
+	n := uint64(2)
+	if s > 0 {
+		n = 1 << uint(s)
+	}
+	for v := uint64(0); v < n; v++ {
+		b.set(v)
+	}
+	return &b
 }
 
 type Violation struct {
@@ -42,6 +70,8 @@ type Stats struct {
 	Events       int64
 	Obligations  int64
 	Discharged   int64
+	DomainDecisions   int64 // branch feasibility decided by the exact byte-domain procedure (no query)
+	DomainCrossChecks int64 // of those, re-decided by the solver for validation
 	ByEval       int64 // obligations that folded to true by symbolic evaluation (no query needed)
 	Unknown      int64
 	Steps        int64
@@ -143,7 +173,7 @@ func (ex *Explorer) Run(nworkers int) {
 			if ex.eng.smtLog != "" {
 				logp = fmt.Sprintf("%s.%s.%d.smt2", ex.eng.smtLog, ex.harness, i)
 			}
-			w.solver, err = NewSolver(ex.eng.solverBin, ex.eng.solverTimeoutMs, logp)
+			w.solver, err = NewSolver(ex.eng.solverBin, ex.eng.solverTimeoutMs, logp, ex.eng.logic)
 			if err != nil {
 				fmt.Fprintf(os.Stderr, "cannot start solver: %v\n", err)
 				os.Exit(3)
@@ -183,6 +213,7 @@ type Worker struct {
 	solver    *Solver
 	lastTrace []Event
 	funcs     map[string]bool
+	ndom      int
 }
 
 // PathRun is the per-path state shared between the interpreter and the
@@ -199,6 +230,10 @@ type PathRun struct {
 	decided map[int32]bool
 	inputs  []inputRec
 	tags    []string
+	dom     map[string]*bitset256
+	mixed   map[string]bool
+	pending *Item // domain snapshot to install when the prefix has been replayed
+	ue      unaryEval
 }
 
 type inputRec struct {
@@ -233,7 +268,12 @@ func (w *Worker) runItem(it *Item) {
 		cp, levels = 0, 0
 	}
 	w.solver.PopTo(levels)
-	pr := &PathRun{w: w, tt: NewTermTable(), prefix: it.Trace, cp: cp, decided: map[int32]bool{}}
+	pr := &PathRun{w: w, tt: NewTermTable(), prefix: it.Trace, cp: cp, decided: map[int32]bool{}, dom: map[string]*bitset256{}, mixed: map[string]bool{}}
+	if len(it.Trace) == 0 {
+		pr.installDomains(it)
+	} else {
+		pr.pending = it
+	}
 	pr.trace = make([]Event, 0, len(it.Trace)+16)
 	if !it.NoMod {
 		pr.ev = NewEvaluator(it.Model)
@@ -316,6 +356,122 @@ func (pr *PathRun) solver() *Solver { return pr.w.solver }
 func (pr *PathRun) record(e Event) {
 	pr.trace = append(pr.trace, e)
 	pr.pos++
+	if pr.pending != nil && pr.pos == len(pr.prefix) {
+		pr.installDomains(pr.pending)
+		pr.pending = nil
+	}
+}
+
+func (pr *PathRun) installDomains(it *Item) {
+	pr.dom = map[string]*bitset256{}
+	for k, v := range it.Dom {
+		c := *v
+		pr.dom[k] = &c
+	}
+	pr.mixed = map[string]bool{}
+	for k := range it.Mixed {
+		pr.mixed[k] = true
+	}
+}
+
+func (pr *PathRun) domOf(sym *Term) *bitset256 {
+	d := pr.dom[sym.name]
+	if d == nil {
+		d = fullDomain(sym.sort)
+		pr.dom[sym.name] = d
+	}
+	return d
+}
+
+// markMixed records that the symbols of a multi-symbol constraint can no longer
+// be decided by their own value sets.
+func (pr *PathRun) markMixed(cond *Term) {
+	if cond == nil || (!cond.supMulti && cond.supSym == nil) {
+		return
+	}
+	if !cond.supMulti {
+		pr.mixed[cond.supSym.name] = true
+		return
+	}
+	var syms []*Term
+	collectSyms(cond, map[int32]bool{}, &syms)
+	for _, s := range syms {
+		pr.mixed[s.name] = true
+	}
+}
+
+// domainSplit partitions the value set of the single symbol of cond into the
+// values that make cond true and those that make it false. ok is false when
+// the byte-domain procedure does not apply.
+func (pr *PathRun) domainSplit(cond *Term) (sym *Term, tset, fset bitset256, ok bool) {
+	if os.Getenv("GOSYMEX_NODOMAIN") != "" || !unaryOK(cond) || pr.pending != nil {
+		return nil, tset, fset, false
+	}
+	sym = cond.supSym
+	if pr.mixed[sym.name] {
+		return nil, tset, fset, false
+	}
+	defer func() {
+		if r := recover(); r != nil {
+			if r == errNotUnaryEvaluable {
+				ok = false
+				return
+			}
+			panic(r)
+		}
+	}()
+	d := pr.domOf(sym)
+	for v := uint64(0); v < 256; v++ {
+		if !d.has(v) {
+			continue
+		}
+		if pr.ue.eval(cond, v) != 0 {
+			tset.set(v)
+		} else {
+			fset.set(v)
+		}
+	}
+	return sym, tset, fset, true
+}
+
+// childDomains returns copies of the current domain maps for a child item.
+func (pr *PathRun) childDomains() (map[string]*bitset256, map[string]bool) {
+	d := make(map[string]*bitset256, len(pr.dom))
+	for k, v := range pr.dom {
+		c := *v
+		d[k] = &c
+	}
+	m := make(map[string]bool, len(pr.mixed))
+	for k := range pr.mixed {
+		m[k] = true
+	}
+	return d, m
+}
+
+// crossCheck selects every 64th byte-domain decision for validation by the solver.
+func (ex *Explorer) crossCheck(pr *PathRun) bool {
+	pr.w.ndom++
+	return pr.w.ndom%64 == 1
+}
+
+func (pr *PathRun) crossCheckSplit(cond *Term, tset, fset bitset256) {
+	ex := pr.w.ex
+	atomic.AddInt64(&ex.stats.DomainCrossChecks, 1)
+	r1, _, _ := pr.checkSide(cond, true)
+	r0, _, _ := pr.checkSide(cond, false)
+	if (r1 == Sat) == tset.empty() && r1 != Unknown || (r0 == Sat) == fset.empty() && r0 != Unknown {
+		panic(fmt.Sprintf("byte-domain procedure disagrees with the solver on %s: solver true-side=%v false-side=%v, domain true-empty=%v false-empty=%v",
+			termString(cond), r1, r0, tset.empty(), fset.empty()))
+	}
+}
+
+func modelWith(m Model, name string, v uint64) Model {
+	c := make(Model, len(m)+1)
+	for k, x := range m {
+		c[k] = x
+	}
+	c[name] = v
+	return c
 }
 
 func (pr *PathRun) inReplay() bool { return pr.pos < len(pr.prefix) }
@@ -389,7 +545,8 @@ func (pr *PathRun) childItem(e Event, m Model, bg map[string]*big.Int, nomod boo
 	tr := make([]Event, len(pr.trace)+1)
 	copy(tr, pr.trace)
 	tr[len(pr.trace)] = e
-	return &Item{Trace: tr, Model: m, Big: bg, NoMod: nomod}
+	d, mx := pr.childDomains()
+	return &Item{Trace: tr, Model: m, Big: bg, NoMod: nomod, Dom: d, Mixed: mx}
 }
 
 func (pr *PathRun) setModel(m Model, bg map[string]*big.Int) {
@@ -418,6 +575,40 @@ func (pr *PathRun) Decide(cond *Term) bool {
 	}
 	ex := pr.w.ex
 	if pr.hasMod {
+		if sym, tset, fset, ok := pr.domainSplit(cond); ok {
+			atomic.AddInt64(&ex.stats.DomainDecisions, 1)
+			if ex.crossCheck(pr) {
+				pr.crossCheckSplit(cond, tset, fset)
+			}
+			switch {
+			case fset.empty() && tset.empty():
+				panic(pathEnd{"infeasible"})
+			case fset.empty():
+				pr.record(Event{1, true})
+				pr.setDecided(cond, true)
+				return true
+			case tset.empty():
+				pr.record(Event{0, true})
+				pr.setDecided(cond, false)
+				return false
+			}
+			mv := pr.ev.EvalBool(cond)
+			mine, other := tset, fset
+			if !mv {
+				mine, other = fset, tset
+			}
+			child := pr.childItem(Event{b2u(!mv), false}, modelWith(pr.ev.model, sym.name, other.first()), pr.ev.big, false)
+			oc := other
+			child.Dom[sym.name] = &oc
+			ex.push(pr.w.id, child)
+			mc := mine
+			pr.dom[sym.name] = &mc
+			pr.assertSide(cond, mv)
+			pr.record(Event{b2u(mv), false})
+			pr.setDecided(cond, mv)
+			return mv
+		}
+		pr.markMixed(cond)
 		mv := pr.ev.EvalBool(cond)
 		r, m, bg := pr.checkSide(cond, !mv)
 		switch r {
@@ -437,6 +628,7 @@ func (pr *PathRun) Decide(cond *Term) bool {
 		return mv
 	}
 	// no model: query both sides
+	pr.markMixed(cond)
 	r1, m1, b1 := pr.checkSide(cond, true)
 	r0, m0, b0 := pr.checkSide(cond, false)
 	if r1 == Unknown {
@@ -524,6 +716,24 @@ func (pr *PathRun) Assume(cond *Term) {
 		pr.setDecided(cond, true)
 		return
 	}
+	if pr.hasMod {
+		if sym, tset, _, ok := pr.domainSplit(cond); ok {
+			atomic.AddInt64(&pr.w.ex.stats.DomainDecisions, 1)
+			if tset.empty() {
+				panic(pathEnd{"assume infeasible"})
+			}
+			tc := tset
+			pr.dom[sym.name] = &tc
+			pr.assertSide(cond, true)
+			pr.record(Event{1, false})
+			pr.setDecided(cond, true)
+			if !pr.ev.EvalBool(cond) {
+				pr.setModel(modelWith(pr.ev.model, sym.name, tset.first()), pr.ev.big)
+			}
+			return
+		}
+	}
+	pr.markMixed(cond)
 	pr.assertSide(cond, true)
 	pr.record(Event{1, false})
 	pr.setDecided(cond, true)
@@ -628,6 +838,12 @@ func (pr *PathRun) Concretize(t *Term) uint64 {
 		return e.Val
 	}
 	ex := pr.w.ex
+	if pr.hasMod {
+		if v, ok := pr.concretizeByDomain(t); ok {
+			return v
+		}
+	}
+	pr.markMixed(t)
 	s := pr.solver()
 	lvl := s.level
 	type alt struct {
@@ -696,6 +912,66 @@ func (pr *PathRun) Concretize(t *Term) uint64 {
 		pr.setModel(alts[0].m, alts[0].bg)
 	}
 	return alts[0].v
+}
+
+// concretizeByDomain enumerates the values of a term that depends on one
+// byte/bool symbol by evaluating it over the symbol's exact value set.
+func (pr *PathRun) concretizeByDomain(t *Term) (res uint64, ok bool) {
+	if os.Getenv("GOSYMEX_NODOMAIN") != "" || !unaryOK(t) || pr.pending != nil || pr.mixed[t.supSym.name] {
+		return 0, false
+	}
+	sym := t.supSym
+	defer func() {
+		if r := recover(); r != nil {
+			if r == errNotUnaryEvaluable {
+				ok = false
+				return
+			}
+			panic(r)
+		}
+	}()
+	d := pr.domOf(sym)
+	pre := map[uint64]*bitset256{}
+	var vals []uint64
+	for v := uint64(0); v < 256; v++ {
+		if !d.has(v) {
+			continue
+		}
+		x := pr.ue.eval(t, v)
+		b := pre[x]
+		if b == nil {
+			b = &bitset256{}
+			pre[x] = b
+			vals = append(vals, x)
+		}
+		b.set(v)
+	}
+	if len(vals) == 0 {
+		panic(pathEnd{"infeasible"})
+	}
+	ex := pr.w.ex
+	atomic.AddInt64(&ex.stats.DomainDecisions, 1)
+	tt := pr.tt
+	mine := pr.ev.Eval(t)
+	if len(vals) == 1 {
+		tt.Eq(t, tt.Const(t.sort, vals[0]))
+		pr.record(Event{vals[0], true})
+		return vals[0], true
+	}
+	sort.Slice(vals, func(i, j int) bool { return vals[i] < vals[j] })
+	for i := len(vals) - 1; i >= 0; i-- {
+		x := vals[i]
+		if x == mine {
+			continue
+		}
+		child := pr.childItem(Event{x, false}, modelWith(pr.ev.model, sym.name, pre[x].first()), pr.ev.big, false)
+		child.Dom[sym.name] = pre[x]
+		ex.push(pr.w.id, child)
+	}
+	pr.dom[sym.name] = pre[mine]
+	pr.assertFresh(tt.Eq(t, tt.Const(t.sort, mine)))
+	pr.record(Event{mine, false})
+	return mine, true
 }
 
 func (tt *TermTable) Mark() int { return len(tt.terms) }
